@@ -8,7 +8,7 @@ from pbt.common import Result, cut, HarnessError
 
 ID = "C17"
 LEVEL = "exploration"
-TOL = {"z": 5.5, "no_jump_alpha": 1e-8, "no_jump_state": "20*(2(N-1)p+3Np*extra)*steps+1e-6"}
+TOL = {"mean_alpha": 1e-8, "no_jump_alpha": 1e-8, "no_jump_state": "20*(2(N-1)p+3Np*extra)*steps+1e-6"}
 RULE = ("two-atom sequences (2-site TDVP is exact, so the only approximation is sampling) on emu-mps, ground-rydberg and XY, "
         "global drive plus a local pulse so that the atoms differ, noise = any of dephasing, relaxation, depolarizing, 2x2 "
         "effective noise and a leakage level with 3x3 effective-noise operators, rates chosen so that most trajectories "
@@ -19,9 +19,11 @@ RULE = ("two-atom sequences (2-site TDVP is exact, so the only approximation is 
         "the number of trajectories without any jump vs the exact no-jump probability |exp(-i H_eff T) psi0|^2 (exact "
         "binomial test, alpha 1e-8) -- a sharp test of the rates; (4) deterministic: with the jump threshold forced "
         "below zero the un-normalised trajectory equals the dense exp(-i H_eff t) psi0 at the end, and its squared norm "
-        "the no-jump probability.  non-trivial = >=10% of the trajectories jump and >=10% do not; distinct = case hash")
+        "the no-jump probability; (5) deterministic: with random.choices intercepted, the jump weights offered are "
+        "<psi|L^dagger L|psi> per (atom, operator) and the state after a generated jump is L psi/|L psi| on that atom.  non-trivial = >=10% of the trajectories jump and >=10% do not; distinct = case hash")
 ASSUMPTIONS = ["the Lindblad reference is the harness' dense integrator from Pulser's lindblad_data (pulser-simulation absent)",
-               "statistical clauses: normal-approximation bound at z=5.5 per (atom,time) and an exact binomial test; runs are "
+               "statistical clauses: distribution-free Chernoff bound per (atom,time) and an exact binomial test (low power at M=120: the "
+               "deterministic clauses (4) and (5) carry the quick tier); runs are "
                "deterministic given the case seed",
                "two atoms only: beyond that TDVP's projection error is not governed by precision (see C02)"]
 
@@ -155,6 +157,43 @@ def check_case(case) -> Result:
                f"noise {list(case['nm'])}, basis {case['basis']}")
         return r
 
+    # ---------------- (5) deterministic: the jump itself.  At the end of the no-jump evolution the harness calls the
+    # jump routine with random.choices intercepted: the offered weights must be <psi|L_k^dagger L_k|psi> per (atom,
+    # operator) and, for a generated choice, the state after the jump must be L_k psi / |L_k psi| on that atom.
+    import random as _random
+
+    psi_before = got.copy()
+    offered = {}
+    orig_choices = _random.choices
+
+    def choices(population, weights=None, **kw):
+        offered["population"], offered["weights"] = list(population), list(weights)
+        pos = [i for i, w in enumerate(weights) if w > 1e-12 * max(weights)]
+        offered["index"] = pos[case["seed"] % len(pos)]
+        return [population[offered["index"]]]
+
+    _random.choices = choices
+    try:
+        cut(impl.do_random_quantum_jump)
+    finally:
+        _random.choices = orig_choices
+    pop, wts = offered["population"], np.array(offered["weights"], dtype=float)
+    want_w = np.array([np.vdot(psi_before, dense.site_op(op.numpy().conj().T @ op.numpy(), q, 2, d) @ psi_before).real for q, op in pop])
+    if len(pop) != 2 * len(collapse_emu):
+        r.fail("jump_candidates", f"{len(pop)} candidates for 2 atoms x {len(collapse_emu)} operators")
+        return r
+    if np.abs(wts / max(wts.sum(), 1e-300) - want_w / max(want_w.sum(), 1e-300)).max() > 1e-6:
+        r.fail("jump_weights_differ" + (":dim3" if d == 3 else ""), f"offered {np.round(wts / wts.sum(), 6).tolist()} vs <L^dagger L> {np.round(want_w / want_w.sum(), 6).tolist()}")
+        return r
+    qj, opj = pop[offered["index"]]
+    want_after = dense.site_op(opj.numpy(), qj, 2, d) @ psi_before
+    want_after = want_after / np.linalg.norm(want_after)
+    got_after = tn.mps_to_dense(impl.state.factors)
+    if abs(np.linalg.norm(got_after) - 1) > 1e-9 or np.abs(got_after - want_after).max() > 1e-6:
+        r.fail("state_after_jump_differs" + (":dim3" if d == 3 else ""),
+               f"jump of operator #{offered['index'] % len(collapse_emu)} on atom {qj}: max diff {np.abs(got_after - want_after).max():.3e}, norm {np.linalg.norm(got_after)!r}")
+        return r
+
     # ---------------- M trajectories in one run
     recorded, jumps = [], []
     orig_run = MPSBackend._run_from_sequence_data
@@ -205,14 +244,18 @@ def check_case(case) -> Result:
         k = ref.index_of(float(t_rel) * T, tol=1e-6 * T)
         want = ref.occupation(k)
         mean = occ[:, ti, :].mean(axis=0)
-        var = occ[:, ti, :].var(axis=0, ddof=1)
-        bound = TOL["z"] * np.sqrt(var / M) + 3.0 / M + 1e-6
-        if np.any(np.abs(mean - want) > bound):
-            a = int(np.argmax(np.abs(mean - want) - bound))
-            r.fail("mean_differs_from_lindblad" + (":dim3" if d == 3 else ""),
-                   f"t={t_rel}: atom {qids[a]} mean {mean[a]:.4f} vs exact {want[a]:.4f} (allowed {bound[a]:.4f}, M={M}); all means {np.round(mean, 4).tolist()} "
-                   f"exact {np.round(want, 4).tolist()}; noise {case['nm']}, basis {case['basis']}")
-            return r
+        # Chernoff-Hoeffding bound for [0,1]-valued variables with known mean mu: P(|mean-mu| large) <= 2 exp(-M KL(mean||mu));
+        # valid for any distribution on [0,1] (rare jumps make sample variances unreliable, so no z-test)
+        thr = np.log(2.0 / TOL["mean_alpha"])
+        for a in range(len(want)):
+            mu = min(max(float(want[a]), 1e-12), 1 - 1e-12)
+            q = min(max(float(mean[a]), 0.0), 1.0)
+            kl = (q * np.log(q / mu) if q > 0 else 0.0) + ((1 - q) * np.log((1 - q) / (1 - mu)) if q < 1 else 0.0)
+            if M * kl > thr and abs(q - mu) > 1e-6:
+                r.fail("mean_differs_from_lindblad" + (":dim3" if d == 3 else ""),
+                       f"t={t_rel}: atom {qids[a]} mean {q:.4f} vs exact {mu:.4f}: M*KL = {M * kl:.1f} > {thr:.1f} (M={M}); all means {np.round(mean, 4).tolist()} "
+                       f"exact {np.round(want, 4).tolist()}; noise {case['nm']}, basis {case['basis']}")
+                return r
         aggv = e2e.to_np(agg.occupation[ti])
         if np.abs(aggv - mean).max() > 1e-9:
             r.fail("aggregate_not_mean", f"t={t_rel}: {aggv.tolist()} vs {mean.tolist()}")
